@@ -254,6 +254,8 @@ func (s *sequenceAllocator) nextSequenceGreaterThan(ctx context.Context, existin
 	numReleasedBatch, err = s._releaseCurrentBatch(ctx)
 	if err != nil {
 		base.InfofCtx(ctx, base.KeyCache, "Unable to release current batch during nextSequenceGreaterThan for existing sequence %d. Will be handled by skipped sequence handling. %v", existingSequence, err)
+		// Abandon the unreleased remainder of the batch: every sequence in it is lower than targetSequence, so it must not be handed out below.
+		s.last = s.max
 	}
 	releasedSequenceCount += numReleasedBatch
 
